@@ -14,6 +14,7 @@
 package evm
 
 import (
+	"errors"
 	"runtime"
 	"sync"
 	"sync/atomic"
@@ -26,6 +27,8 @@ import (
 	"github.com/dappledger/AnnChain/gemmill/modules/go-log"
 	gtypes "github.com/dappledger/AnnChain/gemmill/types"
 )
+
+var errEmptyTx = errors.New("empty transaction")
 
 var (
 	validateRoutineCount = runtime.NumCPU()
@@ -165,6 +168,9 @@ func txQueue(tptx gtypes.Tx, apptxQ [][]appTx, i, j int) error {
 		if err := rlp.DecodeBytes(tptx, cur.tx); err != nil {
 			cur.err = err
 		}
+	} else {
+		// nothing to decode: invalid (executing it would dereference a nil tx)
+		cur.err = errEmptyTx
 	}
 
 	// publish the entry only after all of its fields are written
